@@ -239,11 +239,19 @@ META = {
                 "spaces, as the tool writes it) parses back to the same list for every non-empty list of 32-bit values incl. negatives "
                 "(C19_weights_roundtrip, decimal printer/parser modelled); records whose weight count differs from word length + 1 are "
                 "rejected, all others accepted (C19_record_check); loading the unmodified dump reproduces the dictionary and hence the "
-                "model (C19_dump_replace, given the CSV three-column contract). Tied to /repo by replace_dictionary cases with a "
+                "model (C19_dump_replace, given the CSV three-column contract). That contract is no longer assumed: VModel/CsvFile.lean models the FILE level — the csv crate's writer "
+                "(quote a field iff it contains , \" CR or LF; double the quotes; a record of one empty field is written as \"\"; header before the first record, empty dictionary = empty file) and "
+                "its reader (the csv-core state machine with the crate's defaults: LF, CR LF and CR terminate, blank lines skipped, lenient quotes), and the tool's loading on top of it — and "
+                "C19_csv_roundtrip (parse(write records) = records for ALL non-empty records of arbitrary fields), C19_csv_variants (every field optionally quoted, any CR/LF run as terminator, blank lines, "
+                "missing final terminator), C19_csv_contract, C19_dump_file_roundtrip (load(dump d) = d for every dictionary with i32 weights and one weight per character + 1), "
+                "C19_dump_file_replace_model, C19_dump_file_strict / C19_written_file_strict (what the writer produces lies inside the domain where the model claims to agree with the real reader), "
+                "C19_load_file_rejects / _fieldcount (bad weight counts, unparsable weights and wrong field counts are rejected) and C19_load_file_total prove it. Tied to /repo by replace_dictionary cases with a "
                 "score-delta oracle, by comparing the weights column written by the REAL manipulate_model with the model's, and by the "
-                "end-to-end CLI dump->replace run (byte-identical model files; malformed record rejected).",
+                "end-to-end CLI dump->replace run (byte-identical model files; malformed record rejected); DF cases compare the file the real tool dumps with the model's byte for byte, "
+                "LF cases what the real tool loads from hand-made files (all fields quoted, CRLF, blank lines, no final line break, bad records, the empty file) with the model's answer.",
         "design_ref": "DESIGN.md §6 C19",
-        "note": _common_note + "PARTIAL: the csv/serde quoting layer and zstd are external contracts, exercised end-to-end by the CLI step but not modelled.",
+        "note": _common_note + "PARTIAL: zstd, serde's by-name column mapping for headers other than word,weights,comment, BOM handling and non-UTF-8 bytes are outside the modelled (strict) domain; "
+                "the csv reader/writer model is tied to the csv crate by the DF/LF cases.",
         "technique": "Lean 4 proof (decimal round trip, split/join, spec algebra) + differential correspondence + end-to-end CLI run",
     },
     "C09": {
